@@ -510,12 +510,23 @@ func (x *Exec) nilCheck(st *State, ptr string, site string) {
 	x.check(st, "safe:nil@"+site, fmt.Sprintf("(not (= %s %s))", ptr, x.cx.num(0)), site)
 }
 
-// frameCheck: a heap store must target an object allocated by this activation or a declared modifies location.
+func (x *Exec) frameCheckNilOK(st *State, key, ptr, site string) {
+	x.frameCheckOpt(st, key, ptr, site, true)
+}
+
 func (x *Exec) frameCheck(st *State, key, ptr, site string) {
+	x.frameCheckOpt(st, key, ptr, site, false)
+}
+
+// frameCheck: a heap store must target an object allocated by this activation or a declared modifies location.
+func (x *Exec) frameCheckOpt(st *State, key, ptr, site string, nilOK bool) {
 	if st.fresh[ptr] || x.modAll {
 		return
 	}
 	var alts []string
+	if nilOK {
+		alts = append(alts, fmt.Sprintf("(= %s %s)", ptr, x.cx.num(0)))
+	}
 	for _, m := range x.modSet {
 		if m.key == key {
 			if m.ptr == ptr {
@@ -697,6 +708,19 @@ func (x *Exec) loopEdge(st *State, li *loopInfo, from, to *ssa.BasicBlock) bool 
 		g := x.clauseTerm(st, cl, env)
 		x.check(st, fmt.Sprintf("%s#%d[%s]", kind, li.ord, lab), g, fmt.Sprintf("loop%d", li.ord))
 	}
+	tr := spec.Before
+	trKind := "before"
+	if back {
+		tr, trKind = spec.Each, "each"
+	}
+	for i, cl := range tr {
+		lab := cl.Label
+		if lab == "" {
+			lab = fmt.Sprintf("%d", i+1)
+		}
+		g := x.clauseTerm(st, cl, env)
+		x.check(st, fmt.Sprintf("%s#%d[%s]", trKind, li.ord, lab), g, fmt.Sprintf("loop%d", li.ord))
+	}
 	ri := x.rangeIndexCell(st, li)
 	if ri != "" {
 		x.check(st, fmt.Sprintf("%s#%d[rangeindex]", kind, li.ord), x.cx.binop(token.LEQ, x.cx.num(-1), ri, types.Typ[types.Int], types.Typ[types.Bool]), fmt.Sprintf("loop%d", li.ord))
@@ -739,6 +763,8 @@ func (x *Exec) loopEdge(st *State, li *loopInfo, from, to *ssa.BasicBlock) bool 
 		v := x.name(st, "variant", Val{S: x.clauseTerm(st, spec.Decreases, env), T: types.Typ[types.Int]})
 		fr.variant[to.Index] = v.S
 	}
+	// the ghost call trace restarts at the loop head: clauses after this point see the events since here
+	st.trace = append(st.trace, traceEv{name: "#loop"})
 	return false
 }
 
@@ -873,6 +899,12 @@ func (x *Exec) step(st *State, ins ssa.Instruction) {
 		next()
 	case *ssa.UnOp:
 		xv := x.val(st, ins.X)
+		if fa, ok := ins.X.(*ssa.FieldAddr); ok && ins.Op == token.MUL && ownedFields[fieldName(fa)] {
+			if why := ownedEscape(ins); why != "" {
+				x.check(st, "owned:escape:"+fieldName(fa)+"@"+site, "false", site)
+				x.notes = append(x.notes, "owned:escape: "+why)
+			}
+		}
 		switch ins.Op {
 		case token.MUL:
 			if xv.A == nil {
@@ -1342,6 +1374,19 @@ func (x *Exec) doSlice(st *State, ins *ssa.Slice, site string) {
 		if lo != "" && lo != cx.num(0) {
 			panic(unsupported("slice with non-zero low bound"))
 		}
+		if hi != "" {
+			// x[:k] keeps the storage behind k reachable for appends: only sound in the value model of slices when the
+			// slice is exclusively owned by its field (declared `owned`) or k is the full length
+			owned := false
+			if u, ok := ins.X.(*ssa.UnOp); ok {
+				if fa, ok := u.X.(*ssa.FieldAddr); ok && ownedFields[fieldName(fa)] {
+					owned = true
+				}
+			}
+			if !owned {
+				x.check(st, "safe:alias@"+site, fmt.Sprintf("(= %s %s)", hi, l), site)
+			}
+		}
 		if hi == "" {
 			hi = l
 		}
@@ -1768,4 +1813,59 @@ func (x *Exec) rangeIndexCell(st *State, li *loopInfo) string {
 		}
 	}
 	return ""
+}
+
+// ownedEscape: the value loaded from an owned slice field is used in a way that may copy the slice header out of the field.
+func ownedEscape(load *ssa.UnOp) string {
+	fa := load.X.(*ssa.FieldAddr)
+	sameField := func(addr ssa.Value) bool {
+		a, ok := addr.(*ssa.FieldAddr)
+		return ok && a.Field == fa.Field && fieldName(a) == fieldName(fa)
+	}
+	var okUse func(v ssa.Value, depth int) string
+	okUse = func(v ssa.Value, depth int) string {
+		if depth > 4 {
+			return "too deep"
+		}
+		for _, ref := range *v.Referrers() {
+			switch r := ref.(type) {
+			case *ssa.DebugRef, *ssa.IndexAddr, *ssa.Range, *ssa.Lookup:
+			case *ssa.Slice:
+				if w := okUse(r, depth+1); w != "" {
+					return w
+				}
+			case *ssa.Store:
+				if r.Val == v && !sameField(r.Addr) {
+					return "stored into another location at " + r.Parent().Name()
+				}
+			case *ssa.Call:
+				switch c := r.Call.Value.(type) {
+				case *ssa.Builtin:
+					switch c.Name() {
+					case "len", "cap":
+					case "append":
+						if r.Call.Args[0] == v {
+							if w := okUse(r, depth+1); w != "" {
+								return w
+							}
+						}
+						// as the variadic source its elements are copied
+					default:
+						return "passed to builtin " + c.Name()
+					}
+				case *ssa.Function:
+					if c.Pkg != nil && c.Pkg.Pkg.Path() == "slices" && c.Name() == "Contains" || strings.HasPrefix(c.String(), "slices.Contains") {
+						continue
+					}
+					return "passed to " + c.String()
+				default:
+					return "passed to a call"
+				}
+			default:
+				return fmt.Sprintf("used by %T", ref)
+			}
+		}
+		return ""
+	}
+	return okUse(load, 0)
 }
